@@ -387,6 +387,26 @@ func execC13c1(p *drv.Plan) *Out {
 				out.Violations = append(out.Violations, &drv.Violation{Prop: "C13", Oracle: "C13.decoder-total", Symptom: "hang", Class: d.name, Detail: fmt.Sprintf("%s(%x) took %v", d.name, in, el)})
 				return out
 			case delta > uint64(64*len(in)+1<<20):
+				// TotalAlloc is process-wide: background allocation (GC work, a
+				// goroutine left over from an earlier run) inflates one sample.
+				// What the decoder itself allocates is the same on every call:
+				// the smallest of three more samples decides.
+				for k := 0; k < 3 && delta > uint64(64*len(in)+1<<20); k++ {
+					runtime.ReadMemStats(&ms)
+					b0 := ms.TotalAlloc
+					func() {
+						defer func() { _ = recover() }()
+						_ = d.f(in)
+					}()
+					runtime.ReadMemStats(&ms)
+					if d2 := ms.TotalAlloc - b0; d2 < delta {
+						delta = d2
+					}
+				}
+				if delta <= uint64(64*len(in)+1<<20) {
+					out.Probes["c1.alloc-sample-noisy"]++
+					continue
+				}
 				out.Violations = append(out.Violations, &drv.Violation{Prop: "C13", Oracle: "C13.decoder-total", Symptom: "alloc-blowup", Class: d.name, Detail: fmt.Sprintf("%s(%x) allocated %d bytes for %d input bytes", d.name, in, delta, len(in))})
 				return out
 			}
@@ -471,6 +491,12 @@ func execC13c2(p *drv.Plan) *Out {
 		out.Stats["corruptions"]++
 		cls := what
 		fast := r.Chance(1, 2)
+		if !traverse {
+			// a handle with the index enabled on a store without a matching index
+			// builds it on Load, which walks the whole latest tree (and would
+			// follow the flipped child pointer round and round as well)
+			fast = false
+		}
 		done := make(chan *drv.Violation, 1)
 		go func() {
 			var v *drv.Violation
@@ -516,6 +542,7 @@ func execC13c2(p *drv.Plan) *Out {
 				return out
 			}
 		case <-time.After(20 * time.Second):
+			out.Tainted = true // the goroutine is still spinning: no further run in this process
 			out.Violations = append(out.Violations, &drv.Violation{Prop: "C13", Oracle: "C13.decoder-total", Symptom: "hang", Class: "disk/" + cls, Detail: fmt.Sprintf("stored %s entry %x corrupted (%s) to %x: decode path did not return within 20 s", what, target, kind, mut)})
 			return out
 		}
